@@ -52,7 +52,10 @@ def ggh_hash_nonplain(bits):
     total = 0
     for i, b in enumerate(bits):
         total = (total + b * SHA512_prng(i))
-        total.value = total.value % PRIME
+        if isinstance(total, LinComb):
+            total.value = total.value % PRIME
+        else:
+            total = total % PRIME
     return total
 
 def rand_bits(count):
